@@ -40,7 +40,14 @@ func (iv Invocation) Args() []string {
 		fl = append(fl, []string{"-log"})
 	}
 	if iv.OutArg != "" {
-		fl = append(fl, []string{"-out", iv.OutArg})
+		switch (iv.FlagOrder / 2) % 3 {
+		case 1:
+			fl = append(fl, []string{"-out=" + iv.OutArg})
+		case 2:
+			fl = append(fl, []string{"--out", iv.OutArg})
+		default:
+			fl = append(fl, []string{"-out", iv.OutArg})
+		}
 	}
 	if iv.FlagOrder%2 == 1 {
 		for i, j := 0, len(fl)-1; i < j; i, j = i+1, j-1 {
@@ -111,6 +118,9 @@ func ExecSteps(env *sim.Env, root string, steps []Step, st *Stats) []StepResult 
 			r.Err = os.RemoveAll(p)
 		case "mkdir":
 			r.Err = os.MkdirAll(p, 0o755)
+		case "symlink":
+			os.Remove(p)
+			r.Err = os.Symlink(w(root, string(s.Data)), p)
 		case "truncate":
 			r.Err = os.Truncate(p, int64(s.K))
 		case "zerotail":
@@ -286,6 +296,9 @@ func InputForm(form, setup string) (cwd, input, gofile string) {
 		return dir, setup, ""
 	case "abs-modroot":
 		return modRoot, setup, ""
+	case "symlink-pkgdir":
+		// the package directory reached through a symbolic link to the module root
+		return strings.Replace(dir, modRoot, "{W}/modlink", 1), base, ""
 	case "gofile":
 		return dir, "", base
 	case "gofile-overridden":
